@@ -617,6 +617,7 @@ func (p *Parser) parseTargetType() (memberAccessor, bool, error) {
 	startLine := p.lineNum
 	startCol := p.colNum()
 
+	cp := p.save()
 	if p.skipChar('&') {
 		// Using a slice as an output is an error, we add the case here to
 		// improve the error message.
@@ -625,7 +626,12 @@ func (p *Parser) parseTargetType() (memberAccessor, bool, error) {
 		} else if err != nil {
 			return memberAccessor{}, false, errorAt(fmt.Errorf("cannot use slice syntax in output expression"), startLine, startCol, p.input)
 		}
-		return p.parseTypeAndMember()
+		ma, ok, err := p.parseTypeAndMember()
+		if !ok && err == nil {
+			// Not a target type: give back the '&' that was skipped.
+			cp.restore()
+		}
+		return ma, ok, err
 	}
 
 	return memberAccessor{}, false, nil
